@@ -19,6 +19,7 @@ Open Scope Z_scope.
 
 Section Core3.
 Context {T : Type} `{Num T}.
+Local Notation St3 := (@St2 T).
 
 (* the code's hull test *)
 Definition hull3 (z x y : arr T) (zend xend yend : T) : bool :=
@@ -55,7 +56,7 @@ Proof.
 Qed.
 
 (* invariant of the auxiliary vectors *)
-Definition InvS3 (hg : bool) (s : St2) : Prop :=
+Definition InvS3 (hg : bool) (s : St3) : Prop :=
   vec3 (s_pcur s) /\ length (dat (s_delta s)) = 3%nat /\
   (hg = true -> vec3 (s_lower s) /\ vec3 (s_upper s)).
 
@@ -73,7 +74,7 @@ Definition magnets3 (lo up p p' : arr T) : Prop :=
   magnet_of lo up p p' 0 /\ magnet_of lo up p p' 1 /\ magnet_of lo up p p' 2.
 
 (* one execution of the loop body: a plain break, a stored vertex, or a free step *)
-Definition step_spec3 (hg : bool) (max_step nfmax : Z) (z x y : arr T) (s : St2) (r : ctl St2) : Prop :=
+Definition step_spec3 (hg : bool) (max_step nfmax : Z) (z x y : arr T) (s : St3) (r : ctl St3) : Prop :=
   r = Brk s \/
   (s_count s < max_step /\ s_nfree s <= nfmax /\
    exists s', InvS3 hg s' /\
@@ -87,7 +88,7 @@ Definition step_spec3 (hg : bool) (max_step nfmax : Z) (z x y : arr T) (s : St2)
        s_ray s' = s_ray s /\ s_lower s' = s_lower s /\ s_upper s' = s_upper s))).
 
 (* what the function returns after the loop *)
-Definition fin3 (zsrc xsrc ysrc : T) (max_step nfmax : Z) (s : St2) : res (arr T * Z) :=
+Definition fin3 (zsrc xsrc ysrc : T) (max_step nfmax : Z) (s : St3) : res (arr T * Z) :=
   if (max_step <=? s_count s) || (nfmax <? s_nfree s) then Ok (s_ray s, -2)
   else Ok (set_sub (s_ray s) [s_count s] (of_list [zsrc; xsrc; ysrc]), s_count s).
 
@@ -216,7 +217,7 @@ Section Char.
 Variables (z x y zgrad xgrad ygrad : arr T) (zend xend yend zsrc xsrc ysrc stepsize : T) (max_step : Z) (hg : bool).
 
 Definition core3_char_stmt : Prop :=
-  exists (cond : St2 -> bool) (body : St2 -> ctl St2) (s0 : St2),
+  exists (cond : St3 -> bool) (body : St3 -> ctl St3) (s0 : St3),
     (forall fuel,
        u_ray3d_core_v fuel z x y zgrad xgrad ygrad zend xend yend zsrc xsrc ysrc stepsize max_step hg =
        rbind (while_fuel fuel cond body s0) (fin3 zsrc xsrc ysrc max_step (nfree_max3 z x y stepsize))) /\
@@ -270,7 +271,7 @@ Qed.
 End Char.
 
 (* ---------- consequences of step_spec3 ---------- *)
-Definition progress3 (hg : bool) (max_step nfmax : Z) (z x y : arr T) (s s' : St2) : Prop :=
+Definition progress3 (hg : bool) (max_step nfmax : Z) (z x y : arr T) (s s' : St3) : Prop :=
   s_count s < max_step /\ s_nfree s <= nfmax /\ InvS3 hg s' /\
   ((hg = false /\ s_count s' = s_count s + 1 /\ s_nfree s' = s_nfree s /\
     s_ray s' = set_sub (s_ray s) [s_count s] (s_pcur s') /\ clamped3 z x y (s_pcur s')) \/
@@ -307,10 +308,10 @@ Qed.
 (* the loop, abstractly: any cond and a body satisfying step_spec3 *)
 Section Loop.
 Variables (hg : bool) (max_step nfmax : Z) (z x y : arr T).
-Variables (cond : St2 -> bool) (body : St2 -> ctl St2).
+Variables (cond : St3 -> bool) (body : St3 -> ctl St3).
 Hypothesis Hstep : forall s, InvS3 hg s -> step_spec3 hg max_step nfmax z x y s (body s).
 
-Lemma loop3_inv (P : St2 -> Prop) :
+Lemma loop3_inv (P : St3 -> Prop) :
   (forall s s', P s -> InvS3 hg s -> progress3 hg max_step nfmax z x y s s' -> P s') ->
   forall fuel s0 s1, InvS3 hg s0 -> P s0 -> while_fuel fuel cond body s0 = Ok s1 -> InvS3 hg s1 /\ P s1.
 Proof.
@@ -329,11 +330,11 @@ Proof.
   - intros s s' Hi _ Eb. pose proof (Hstep s Hi) as Hs. rewrite Eb in Hs.
     apply step_spec3_next in Hs. apply Hs.
   - intros s e' Hi _ Eb. pose proof (Hstep s Hi) as Hs. rewrite Eb in Hs.
-    exact (step_spec3_exc _ _ _ _ _ _ _ Hs).
+    exact (step_spec3_exc _ _ _ _ _ _ _ _ Hs).
 Qed.
 
 (* lexicographic measure (remaining budget, remaining free steps) *)
-Definition lexm3 (s : St2) : nat :=
+Definition lexm3 (s : St3) : nat :=
   (Z.to_nat (max_step - s_count s) * (Z.to_nat nfmax + 2) + Z.to_nat (nfmax + 1 - s_nfree s))%nat.
 
 Lemma progress3_lexm s s' : progress3 hg max_step nfmax z x y s s' -> (lexm3 s' < lexm3 s)%nat.
@@ -358,7 +359,7 @@ Proof.
 Qed.
 
 (* free mode: the budget alone is a measure *)
-Definition budm3 (s : St2) : nat := Z.to_nat (max_step - s_count s).
+Definition budm3 (s : St3) : nat := Z.to_nat (max_step - s_count s).
 Lemma loop3_terminates_free fuel s0 :
   hg = false -> InvS3 hg s0 -> (budm3 s0 < fuel)%nat -> while_fuel fuel cond body s0 <> OutOfFuel.
 Proof.
@@ -370,7 +371,7 @@ Proof.
 Qed.
 End Loop.
 
-Lemma fin2_ok zsrc xsrc ms nf s : exists rc, fin3 zsrc xsrc ysrc ms nf s = Ok rc.
+Lemma fin3_ok zsrc xsrc ysrc ms nf s : exists rc, fin3 zsrc xsrc ysrc ms nf s = Ok rc.
 Proof. unfold fin3. destruct (_ || _); eexists; reflexivity. Qed.
 
 (* ------------------------------------------------------------------------------------------ *)
@@ -399,7 +400,7 @@ Proof.
   - destruct (ray3d_core_char z x y zgrad xgrad ygrad zend xend yend zsrc xsrc ysrc stepsize max_step hg Hh)
       as (cond & body & s0 & Heq & (_ & _ & _ & _ & Hi0 & Hcell0) & Hstep).
     rewrite Heq. destruct (while_fuel fuel cond body s0) as [s1| |] eqn:Ew; simpl; try discriminate.
-    + destruct (fin2_ok zsrc xsrc max_step (nfree_max3 z x y stepsize) s1) as [rc ->]. discriminate.
+    + destruct (fin3_ok zsrc xsrc max_step (nfree_max3 z x y stepsize) s1) as [rc ->]. discriminate.
     + exfalso. eapply loop3_no_raise; eauto.
   - rewrite ray3d_core_outside by exact Hh. discriminate.
 Qed.
@@ -456,7 +457,7 @@ Proof.
   - destruct (ray3d_core_char z x y zgrad xgrad ygrad zend xend yend zsrc xsrc ysrc stepsize max_step hg Hh)
       as (cond & body & s0 & Heq & (Hc0 & _ & _ & _ & Hi0 & Hcell0) & Hstep).
     rewrite Heq. destruct (while_fuel fuel cond body s0) as [s1| |] eqn:Ew; simpl; try discriminate.
-    + destruct (fin2_ok zsrc xsrc max_step (nfree_max3 z x y stepsize) s1) as [rc ->]. discriminate.
+    + destruct (fin3_ok zsrc xsrc max_step (nfree_max3 z x y stepsize) s1) as [rc ->]. discriminate.
     + exfalso. revert Ew. eapply loop3_terminates_free; eauto. unfold budm3. rewrite Hc0. lia.
   - rewrite ray3d_core_outside by exact Hh. discriminate.
 Qed.
@@ -470,7 +471,7 @@ Proof.
   - destruct (ray3d_core_char z x y zgrad xgrad ygrad zend xend yend zsrc xsrc ysrc stepsize max_step hg Hh)
       as (cond & body & s0 & Heq & (Hc0 & Hn0 & _ & _ & Hi0 & Hcell0) & Hstep).
     rewrite Heq. destruct (while_fuel fuel cond body s0) as [s1| |] eqn:Ew; simpl; try discriminate.
-    + destruct (fin2_ok zsrc xsrc max_step (nfree_max3 z x y stepsize) s1) as [rc ->]. discriminate.
+    + destruct (fin3_ok zsrc xsrc max_step (nfree_max3 z x y stepsize) s1) as [rc ->]. discriminate.
     + exfalso. revert Ew. eapply loop3_terminates; eauto. unfold lexm3. rewrite Hc0, Hn0.
       set (N := nfree_max3 z x y stepsize) in *.
       assert (Z.to_nat (max_step - 1) <= Z.to_nat max_step)%nat by lia.
@@ -494,7 +495,7 @@ Variables (z x y zgrad xgrad ygrad : arr T) (zend xend yend zsrc xsrc ysrc steps
 Notation core fuel := (u_ray3d_core_v fuel z x y zgrad xgrad ygrad zend xend yend zsrc xsrc ysrc stepsize max_step hg).
 
 (* rows that the loop keeps: shape, well-formedness, row 0 *)
-Definition ray3_ok (s : St2) : Prop :=
+Definition ray3_ok (s : St3) : Prop :=
   1 <= s_count s <= max_step /\ shape (s_ray s) = [max_step; 3] /\ wf (s_ray s) /\
   get (nofZ 0) (s_ray s) [0; 0] = zend /\ get (nofZ 0) (s_ray s) [0; 1] = xend /\
   get (nofZ 0) (s_ray s) [0; 2] = yend.
